@@ -244,6 +244,13 @@ class MultiHeadAttention(pattern.RewriteRuleClassBase):
                         f"Shape mismatch: {mask} does not match expected dimensions ['1 or B', '1 or H', '1 or S', 'St']",
                         mask,
                     )
+                # ORT's MultiHeadAttention broadcasts attention_bias over dims 0 and 1 only
+                if bindings["B_or_1"] != 1 and bindings["B_or_1"] != bindings["B"]:
+                    return check_result.fail("Mask dimension 0 is neither 1 nor B", mask)
+                if bindings["H_or_1"] != 1 and bindings["H_or_1"] != bindings["H"]:
+                    return check_result.fail("Mask dimension 1 is neither 1 nor H", mask)
+                if bindings["St"] == 1 and (self._has_past_present or bindings.get("Skv") != 1):
+                    return check_result.fail("Mask broadcasts along the total sequence length", mask)
                 mask_dim_2 = bindings.get("S_or_1")
                 if mask_dim_2 == bindings.get("S"):
                     self._use_mask_broadcast = False
@@ -259,6 +266,8 @@ class MultiHeadAttention(pattern.RewriteRuleClassBase):
                         f"Shape mismatch: {mask} does not match expected dimensions ['1 or S', 'St']",
                         mask,
                     )
+                if bindings["St"] == 1 and (self._has_past_present or bindings.get("Skv") != 1):
+                    return check_result.fail("Mask broadcasts along the total sequence length", mask)
                 self._use_mask_broadcast = True
             else:
                 return check_result.fail(
